@@ -114,4 +114,10 @@ theorem C18_nlargest_nsmallest (largest : Bool) (n : Nat) (fn : Option Nat) (s f
     CancelSafe (Impl.nBest largest n fn s fuel) s :=
   cancelSafe_of (C06_nlargest_nsmallest largest n fn s fuel) (C04_nlargest_nsmallest largest n fn s fuel)
 
+theorem C18_set (s fuel : Nat) : CancelSafe (Impl.set s fuel) s :=
+  cancelSafe_of (C06_set s fuel) (C04_set s fuel)
+
+theorem C18_dict (s fuel : Nat) : CancelSafe (Impl.dict s fuel) s :=
+  cancelSafe_of (C06_dict s fuel) (C04_dict s fuel)
+
 end AsyncVerif
